@@ -10,6 +10,7 @@ ID = "C01"
 LEVEL = "exploration"
 CONTRACTS = True  # icontract postconditions on AlignedStream.read/peek/seek fire during this workload too
 STEP_BUDGET = 30_000_000  # line events per case; a case that exceeds it is reported as non-termination
+HANDLE_CLOSE_CHECK = True
 ANCHOR_FILES = ["dissect/hypervisor/disk/qcow2.py", "dissect/hypervisor/disk/c_qcow2.py"]
 RULE = (
     "QCOW2 images written by an independent writer from a content model: versions 2 (72-byte header, extensions "
